@@ -6,12 +6,14 @@ NOTES={
 }
 out='/verif/seeded'
 os.makedirs(out, exist_ok=True)
-for rf in sorted(glob.glob('/tmp/seed/results/*.json'))+sorted(glob.glob('/tmp/seed/results2/*.json')):
+for rf in sorted(glob.glob('/tmp/seed/results/*.json'))+sorted(glob.glob('/tmp/seed/results2/*.json'))+sorted(glob.glob('/tmp/seed/results3/*.json')):
     rnd2='results2' in rf
+    rnd3='results3' in rf
     name=os.path.basename(rf)[:-5]           # C01-m1
     pid,m=name.split('-')
-    srcdir='/tmp/seed/out2' if rnd2 else '/tmp/seed/out'
+    srcdir='/tmp/seed/out3' if rnd3 else ('/tmp/seed/out2' if rnd2 else '/tmp/seed/out')
     if rnd2: name=pid+'-r2'+m
+    if rnd3: name=pid+'-r3'+m
     s=open(rf).read()
     try: r=json.loads(s[s.index('{'):])
     except Exception as e:
